@@ -1,11 +1,68 @@
 (** Property C16 -- A serialised grammar pool restores to a behaviourally identical pool.
     Only the property theorems: each is closed by [exact] of a lemma (Proofs16*.v, Gen/GenSerializeObl.v) and followed
     by [Print Assumptions].  Models: Model16.v; per-class action lists: Gen/GenSerialize.v (regenerated from /repo). *)
-From XV Require Import Base.XDefs C16.Model16 C16.Spec16 C16.Proofs16a Gen.GenSerialize Gen.GenSerializeObl.
+From XV Require Import Base.XDefs C16.Model16 C16.Spec16 C16.Proofs16a C16.Proofs16b C16.Proofs16c
+  Gen.GenSerialize Gen.GenSerializeObl.
 Local Open Scope nat_scope.
 
+(** XSerializeEngine is a faithful typed byte channel (repaired read(), see F26): for every buffer size >= 8 and
+    every sequence of typed primitives (1/2/4/8 bytes aligned, writeSize/Int64/UInt64 unaligned), raw blocks of
+    any length (spanning any number of buffers) and XMLCh strings (null or not), the loading engine run over the
+    bytes produced by the storing engine returns exactly the items written - alignment padding and buffer
+    switches are decided identically on both sides - and what is left of the stream is the zero padding of the
+    last block only (at most one buffer).
+    PARTIAL with respect to the design: writeString with buffer length (OStrB: KVStringPair, QName, XMLDateTime)
+    and XMLByte strings (OStr8: class names of XProtoType) are modelled and covered by the correspondence, but not
+    by this theorem ([basic] excludes them). *)
+Theorem T16_engine_roundtrip_partial : forall bs, 8 <= bs -> forall ops, Forall op_ok ops -> Forall basic ops ->
+  exists stream r', w_all bs ops = Ok stream /\ r_all false bs (map rq_of ops) stream = Ok (ops, r') /\
+                    R r' = zeros (length (R r')) /\ length (R r') <= bs.
+Proof. exact engine_roundtrip. Qed.
+Print Assumptions T16_engine_roundtrip_partial.
+
+(** the code as found does NOT have the property (finding F26): with a 16-byte buffer, a byte, a 31-byte block and
+    an int are read back as a byte, the block and a wrong int *)
+Theorem T16_raw_stale_refuted : exists stream back r,
+  Forall op_ok f26_witness /\ w_all 16 f26_witness = Ok stream /\
+  r_all true 16 (map rq_of f26_witness) stream = Ok (back, r) /\ spec_roundtrip f26_witness back = false.
+Proof. exact raw_stale_refuted. Qed.
+Print Assumptions T16_raw_stale_refuted.
+
 (** every class whose serialize() body the translator read completely issues, after inlining its base-class
-    calls, the same sequence of wire-level actions in its store branch and in its load branch *)
+    calls, the same sequence of wire-level actions in its store branch and in its load branch (same length, same
+    order, same width/kind at every position, same template container kind, same static class of object
+    references, same base-class call position); one lemma per class is in Gen/GenSerializeObl.v *)
 Theorem T16_symmetric : forallb (class_obligation ser_classes) ser_parsed = true.
 Proof. exact T16_sym_all. Qed.
 Print Assumptions T16_symmetric.
+
+(** deserializeGrammars compares the level stamp before anything else is read *)
+Theorem T16_level : forall bs level stream r0 stamp r1 stale qs, 8 <= bs ->
+  r_init bs stream = Ok r0 -> r_prim bs 4 true r0 = Ok (stamp, r1) -> stamp <> level ->
+  pool_load stale bs level qs stream = Err E_LevelMismatch.
+Proof. intros bs level stream r0 stamp r1 stale qs _. exact (level_rejected bs level stream r0 stamp r1 stale qs). Qed.
+Print Assumptions T16_level.
+
+(** a pool stored by a build of another level is refused by this build's loader (ser_level is regenerated from
+    configure.ac), whatever the pool contains and however the stream is cut into buffers *)
+Theorem T16_level_foreign_pool : forall bs stamp locked body qs, 8 <= bs -> (stamp < 4294967296)%N -> stamp <> ser_level ->
+  Forall op_ok body -> Forall basic body ->
+  exists stream, pool_store bs stamp locked body = Ok stream /\ pool_load false bs ser_level qs stream = Err E_LevelMismatch.
+Proof. intros bs stamp locked body qs H. exact (level_mismatch_stored bs H ser_level stamp locked body qs). Qed.
+Print Assumptions T16_level_foreign_pool.
+
+(** non-vacuity *)
+Example T16_nonvacuous_ops :
+  Forall op_ok [OPrim K4 7; OStr (Some [0x41; 0x20AC]); OStr None; ORaw [1; 2; 3]; OPrim KS 5; OPrim K8 0xFFFFFFFFFFFFFFFF]%N /\
+  Forall basic [OPrim K4 7; OStr (Some [0x41; 0x20AC]); OStr None; ORaw [1; 2; 3]; OPrim KS 5; OPrim K8 0xFFFFFFFFFFFFFFFF]%N.
+Proof. split; repeat constructor; vm_compute; reflexivity. Qed.
+Example T16_nonvacuous_straddle :   (* a string whose bytes span three 8-byte buffers, then an aligned int *)
+  w_all 8 [OPrim K1 1; OStr (Some [0x41; 0x42; 0x43; 0x44; 0x45; 0x46; 0x47; 0x48; 0x49]); OPrim K4 9]%N =
+  Ok [1;0;0;0;0;0;0;0; 9;0;0;0;0;0;0;0; 0x41;0;0x42;0;0x43;0;0x44;0; 0x45;0;0x46;0;0x47;0;0x48;0; 0x49;0;0;0;9;0;0;0]%N.
+Proof. vm_compute. reflexivity. Qed.
+Example T16_nonvacuous_level : pool_load false 8 ser_level [] [8;0;0;0;0;0;0;0]%N = Err E_LevelMismatch.
+Proof. vm_compute. reflexivity. Qed.
+Example T16_nonvacuous_asymmetry_detected :   (* a field dropped from the load branch breaks the obligation *)
+  class_ok [(1, true, [APrim W4; AStr false; AObj 2], [APrim W4; AObj 2])] (1, true, [APrim W4; AStr false; AObj 2], [APrim W4; AObj 2]) = false
+  /\ compatible [APrim W4; APrim W1] [APrim W1; APrim W4] = false /\ compatible [APrim W4] [APrim W8] = false.
+Proof. vm_compute. repeat split; reflexivity. Qed.
